@@ -78,7 +78,7 @@ func Run(c *core.Ctx, pool *gjs.Pool) {
 
 	// ------------------------------------------------------------------
 	// 1. the model, checked by TLC
-	nFam := c.Pick(2, 3) // declarations of the families that are explored with every kind of input nondeterminism
+	nFam := 2 // declarations of the families that are explored with every kind of input nondeterminism
 	code := CodeSwitches()
 	repaired := code
 	repaired.Isolated = true
@@ -111,7 +111,12 @@ func Run(c *core.Ctx, pool *gjs.Pool) {
 	exp = append(exp, &modelExpect{violated: "Reproducible", run: ModelRun{Name: "mutant_sortedFinish", Family: "gen", Bnd: ScriptBounds(), Given: []Program{c04.F6Witness()},
 		Sorted: false, Sw: repaired, Nd: allNd, Invs: []string{"Reproducible"}, Workers: 2, Timeout: long}})
 	if thorough {
-		exp = append(exp, &modelExpect{run: ModelRun{Name: "finish_gen", Family: "gen", Bnd: GenBounds(3), Sorted: false, Sw: code,
+		// thorough: the repaired variant on the three-declaration family (without the permutations of the
+		// discovery order, which only matter for roots in two packages and are covered above), and the
+		// family of the generator of Instances.tla (functions and struct types with a method, field uses)
+		exp = append(exp, &modelExpect{run: ModelRun{Name: "repaired_3", Family: "pass", Bnd: PassBounds(3, "m"), Sorted: true, Sw: repaired, Nd: Nondet{Files: true, Esc: true, Session: true},
+			Invs: []string{"Reproducible", "NoDangling", "BSeenOK"}, Workers: 4, Timeout: long}})
+		exp = append(exp, &modelExpect{run: ModelRun{Name: "finish_gen", Family: "gen", Bnd: GenBounds(2), Sorted: false, Sw: code,
 			Invs: []string{"BSound", "BConfluent", "BSeenOK", "BEmit"}, Workers: 4, Timeout: long}})
 	}
 	runModels(c, exp, 3)
@@ -119,7 +124,9 @@ func Run(c *core.Ctx, pool *gjs.Pool) {
 		return
 	}
 	table := map[string]string{}
+	mstates := map[string]int{}
 	for _, e := range exp {
+		mstates[e.run.Name] = e.out.Res.Distinct
 		got := "holds"
 		if e.out.Res.Violated != "" {
 			got = "violated:" + e.out.Res.Violated
@@ -135,11 +142,12 @@ func Run(c *core.Ctx, pool *gjs.Pool) {
 		}
 	}
 	c.Set("model_configurations", table)
+	c.Set("model_states", mstates)
 	c.Phase("tlc_model")
 
 	// witnesses
 	finish, session := exp[0].out, exp[1].out
-	witF6 := SelectWitnesses(finish.Wits, c.Pick(6, 16), "witness:finish", func(w *Wit) bool { return len(w.Early) == 0 })
+	witF6 := SelectWitnesses(finish.Wits, c.Pick(5, 14), "witness:finish", func(w *Wit) bool { return len(w.Early) == 0 })
 	if thorough {
 		witF6 = append(witF6, SelectWitnesses(exp[len(exp)-1].out.Wits, 10, "witness:finish_gen", func(w *Wit) bool { return supported(Program{Decls: w.Decls}) })...)
 	}
@@ -162,7 +170,7 @@ func Run(c *core.Ctx, pool *gjs.Pool) {
 
 	// ------------------------------------------------------------------
 	// 2. seeded skeletons: TLC builds the programs from VERIF_SEED digit strings
-	nSeed := c.Pick(14, 160)
+	nSeed := c.Pick(12, 110)
 	codes := make([][]int, nSeed*3)
 	for i := range codes {
 		codes[i] = make([]int, 48)
@@ -333,7 +341,7 @@ func predict(c *core.Ctx, scen []*Scenario, timeout time.Duration) bool {
 		}
 		s := scen[f.Cid-1]
 		if len(f.Early) == 0 {
-			s.Orders[ordersKey(s.Prog.Decls, f.Ord)] = true
+			s.Orders[normKey(ordersKey(s.Prog.Decls, f.Ord))] = true
 		} else {
 			if !f.Same {
 				s.EarlySame = false
@@ -403,12 +411,15 @@ func perms(l []string) [][]string {
 func (ck *checker) plan(s *Scenario, r Rendered, replaying bool) map[string][]string {
 	c := ck.c
 	witness := strings.HasPrefix(s.Origin, "witness")
-	nPlain := c.Pick(3, 6)
+	nPlain := c.Pick(3, 5)
 	if witness {
-		nPlain = c.Pick(10, 24)
+		nPlain = c.Pick(8, 20)
 	}
 	if replaying {
 		nPlain = 40
+		if v := os.Getenv("C17_REPLAY_N"); v != "" { // development aid
+			fmt.Sscanf(v, "%d", &nPlain)
+		}
 	}
 	var dir []string
 	for i := 0; i < nPlain; i++ {
@@ -490,7 +501,7 @@ func (ck *checker) check(s *Scenario, replaying bool) {
 		}
 		jb.b.Err = firstLineOf(res.Err)
 		jb.b.JS, jb.b.Map, jb.b.sets = res.JSSum, res.MapSum, res.Sets
-		jb.b.Sets = setsKey(res.Sets, "vp")
+		jb.b.Sets = normKey(setsKey(res.Sets, "vp"))
 	}
 	var bs []*build
 	for _, jb := range jobs {
@@ -700,8 +711,12 @@ func (ck *checker) evaluate(s *Scenario, r Rendered, bs []*build) {
 			ck.ordersOK++
 		} else {
 			ck.ordersDrift++
-			if len(ck.driftSamples) < 4 {
-				ck.driftSamples = append(ck.driftSamples, fmt.Sprintf("real instance order %q is none of the %d final orders of the model for %s", orders[0], len(s.Orders), s.Prog.Key()))
+			if len(ck.driftSamples) < 2 {
+				var mo []string
+				for k := range s.Orders {
+					mo = append(mo, k)
+				}
+				ck.driftSamples = append(ck.driftSamples, fmt.Sprintf("real instance order %q is none of the final orders of the model %q for %s rfile=%v", orders[0], mo, s.Prog.Key(), s.RFile))
 			}
 		}
 		if sensitive && strings.HasPrefix(gn, "dir") {
@@ -763,7 +778,7 @@ func (ck *checker) evaluate(s *Scenario, r Rendered, bs []*build) {
 			case !s.EarlySame && foreignInstances(differs, base):
 				crash := ""
 				if obs := gjs.ClassifyNode(gjs.Node(differs.out, time.Minute, "", nil)); obs.End != "exit" {
-					crash = fmt.Sprintf("; the program built after the earlier command does not run: %s %s", obs.End, obs.Msg)
+					crash = fmt.Sprintf("; the program built after the earlier command does not run: %s %s", obs.End, clip(obs.Msg, 120))
 				}
 				ck.report(s, r, g, []string{keySession}, fmt.Sprintf("%s [%s]: the output differs when another command that instantiates a generic declaration of a shared package was built earlier in the same session (model: dangling=%v)%s", s.Origin, gn, s.EarlyDang, crash), base[0], differs)
 			default:
@@ -774,6 +789,17 @@ func (ck *checker) evaluate(s *Scenario, r Rendered, bs []*build) {
 	for _, b := range bs {
 		os.RemoveAll(filepath.Dir(b.out))
 	}
+}
+
+// normKey makes the instance-order keys of the model and of the compiler comparable
+// (the two sides print nested type lists with different spacing).
+func normKey(s string) string { return strings.ReplaceAll(s, ", ", ",") }
+
+func clip(s string, n int) string {
+	if len(s) > n {
+		return s[len(s)-n:]
+	}
+	return s
 }
 
 func firstWith(bs []*build, order string) *build {
